@@ -286,6 +286,14 @@ func init() {
 			if rng.Intn(5) == 0 {
 				data = "# leading comment\n\n" + data
 			}
+			// blank and whitespace-only lines before the first key (and after the last): positions are those of the
+			// text as given, whatever surrounds the document
+			if rng.Intn(4) == 0 {
+				data = []string{"\n", "\n\n", "   \n", "\n# c\n", "\r\n\r\n", "\n \n\n"}[rng.Intn(6)] + data
+			}
+			if rng.Intn(6) == 0 {
+				data += []string{"\n", "\n\n", "\n   \n", " "}[rng.Intn(4)]
+			}
 			c.R.Evaluations++
 			res := realModFile(data)
 			var shape yamlModFileShape
